@@ -1,0 +1,13 @@
+//go:build verif
+
+package ebpf
+
+import "github.com/cilium/ebpf"
+
+// VerifC20SetCircuitMaps hands the loader the two circuit-id maps (field
+// wrapper, no behaviour of its own) so that Add/Remove/Get/Check can be driven
+// against real kernel maps without attaching a program to an interface.
+func (l *Loader) VerifC20SetCircuitMaps(circuitIDMap, circuitIDSubscribers *ebpf.Map) {
+	l.circuitIDMap = circuitIDMap
+	l.circuitIDSubscribers = circuitIDSubscribers
+}
